@@ -14,9 +14,21 @@
 // different threads whose intervals overlapped (counters overlap.<a>||<b>); mandatory minima on these counters make
 // a run that did not actually interleave inconclusive.
 //
+// Control against differences that have nothing to do with shared state: "run alone" means run in a fresh thread, twice,
+// with different garbage in recycled heap blocks (soilHeap + glibc M_PERTURB); steps whose digest differs between these
+// two runs depend on uninitialised memory and are masked (counted, not compared); a concurrent difference is reported only
+// if a third run alone reproduces the baseline (otherwise it is recorded as sequential nondeterminism).  API calls that
+// crash or return garbage single-threaded (other properties' defects) are left out of the scripts, each with a comment
+// at the place where it would have been called.
+//
 // MPS input (MPSInput::readLine, also used by readBasisFile) is exercised only by the "mps" script-set kind (every
 // 5th case), and such a case is executed in a forked child: the tokeniser's process-global strtok state can crash
-// the process, and the remaining coverage must not depend on it.
+// the process, and the remaining coverage must not depend on it.  The child's ThreadSanitizer log is parsed by the
+// parent (attributeChildTsanLog), which collapses the many top-frame pairs of that one root cause into one key.
+//
+// Extra arguments: --base N (offset added to the case index), --reps R, --threads T, --seqonly 1 (baselines only),
+// --nofork 1 (mps cases in-process), --verbose 1.  Compile with -DVL_VGCHECK and run --seqonly under valgrind to find
+// API calls that return uninitialised data.
 #include "sx.hpp"
 #include <pthread.h>
 #include <sched.h>
